@@ -71,13 +71,15 @@ def check_unravel_2d(m: Model, r, rid: str) -> None:
     none_stores = [s for s in stores if isinstance(s.value, ast.Constant) and s.value.value is None]
     helper_calls = [ast.unparse(n) for n in ast.walk(u2.node) if isinstance(n, ast.Call) and isinstance(n.func, ast.Attribute) and ast.unparse(n.func.value) == mp
                     and n.func.attr in ("setdefault", "get", "pop", "update")]
-    ok_none = len(none_stores) == 1 and not helper_calls and any(side == "else" and "level_delimiter in" in t for side, t in guards(none_stores[0])) and \
+    ok_none = len(none_stores) == 1 and not helper_calls and any(side == "else" and " in " in t and "not in" not in t for side, t in guards(none_stores[0])) and \
         not any(side == "then" and ("not in" in t or "is None" in t) for side, t in guards(none_stores[0]))
     r.check(ok_none, rid, f"{u2.qualname}#bare-key-means-all",
             f"a bare outer key must store None ('all') with a plain, unconditional assignment (None stores: {[ast.unparse(s) for s in none_stores]}, "
             f"dict helper calls: {helper_calls}): '7:1,3-5 7' and '0x02 0x01-0x03:0x27' both denote all of the bare key", loc=u2.loc)
     other = [s for s in stores if s not in none_stores]
-    r.check(bool(other) and all(any(side == "then" and t.replace(" ", "") == f"xnotin{mp}" for side, t in guards(s)) for s in other), rid,
+    def key_of(s_):
+        return ast.unparse(s_.targets[0].slice)
+    r.check(bool(other) and all(any(side == "then" and t.replace(" ", "") == f"{key_of(s)}notin{mp}" for side, t in guards(s)) for s in other), rid,
             f"{u2.qualname}#listing-never-replaces-all",
             f"an id set may only be created for a key that is not in the map yet ({[ast.unparse(s) for s in other]}): otherwise a later `key:ids` entry "
             "replaces an earlier whole-key entry", loc=u2.loc)
